@@ -5,7 +5,6 @@ import (
 
 	clienttypes "github.com/bianjieai/tibc-go/modules/tibc/core/02-client/types"
 	packettypes "github.com/bianjieai/tibc-go/modules/tibc/core/04-packet/types"
-	host "github.com/bianjieai/tibc-go/modules/tibc/core/24-host"
 	"github.com/bianjieai/tibc-go/modules/tibc/core/exported"
 	"github.com/bianjieai/tibc-go/zzverif/vp"
 )
@@ -84,9 +83,9 @@ func H_C01_recv() {
 	if p.DestinationChain == w.self && len(p.RelayChain) > 0 {
 		proving = p.RelayChain
 	}
-	commitment := packettypes.CommitPacket(p)
-	receiptKey := host.PacketReceiptKey(p.SourceChain, p.DestinationChain, p.Sequence)
-	commitKey := host.PacketCommitmentKey(p.SourceChain, p.DestinationChain, p.Sequence)
+	commitment := refCommit(p.Data)
+	receiptKey := refReceiptKey(p.SourceChain, p.DestinationChain, p.Sequence)
+	commitKey := refCommitmentKey(p.SourceChain, p.DestinationChain, p.Sequence)
 	if accepted {
 		vp.Reach("recv accepted")
 		vp.Assert(okCall(w, 1, proving, h, proof, p.SourceChain, p.DestinationChain, p.Sequence, commitment),
